@@ -2,8 +2,11 @@
 C06, analytic version: expression trees over OPAQUE leaves on a commutative normed `ℝ`-algebra
 `𝔸` (`ℝⁿ` with the point-wise product, `ℝ`), `derivative` as coded in `operator.py`
 (`is_linear` short cuts, inner points, which scalar/vector multiplies what), and the proof
-that leaf-wise Fréchet derivatives give the Fréchet derivative of every tree.  Not executable
-(uses Mathlib's real analysis); the executable, dimension-typed model is `Model/Deriv.lean`.
+that leaf-wise Fréchet derivatives give the Fréchet derivative of every tree.
+THIS IS A SEPARATE TRANSCRIPTION of the nine expression-class rules, not the executed model
+(`Model/Deriv.lean`, which the driver runs against /repo): it is noncomputable, all operators are
+endomorphisms of ONE algebra (no dom ≠ ran, no block operators, no functionals), and nothing but
+reading ties it to the code.  The theorems about it are named `…_of_leaf_hyps`.
 -/
 import Mathlib.Analysis.Calculus.FDeriv.Mul
 import Mathlib.Analysis.Calculus.FDeriv.Add
@@ -89,7 +92,7 @@ noncomputable def deriv : Tree 𝔸 ι → 𝔸 → (𝔸 →L[ℝ] 𝔸)
       if l.isLin L && r.isLin L then (comp l r).self L
       else (if l.isLin L then l.self L else l.deriv (r.run L x)).comp (r.deriv x)
   | lscal op s, x => if op.isLin L then (lscal op s).self L else s • op.deriv x
-  | rscal op s, x => s • op.deriv (s • x)
+  | rscal op s, x => (op.deriv (s • x)).comp (s • ContinuousLinearMap.id ℝ 𝔸)
   | lvec op v, x => if op.isLin L then (lvec op v).self L else v • op.deriv x
   | rvec op v, x =>
       if op.isLin L then (rvec op v).self L
@@ -148,11 +151,7 @@ theorem deriv_sound (h : LeafOK L) (t : Tree 𝔸 ι) : ∀ x, HasFDerivAt (t.ru
     intro x; simp only [deriv]
     have h1 : HasFDerivAt (fun y : 𝔸 => s • y) (s • ContinuousLinearMap.id ℝ 𝔸) x :=
       (hasFDerivAt_id x).const_smul s
-    have h2 := (ih (s • x)).comp x h1
-    have e : s • op.deriv L (s • x) =
-        (op.deriv L (s • x)).comp (s • ContinuousLinearMap.id ℝ 𝔸) := by
-      ext d; simp
-    rw [e]; exact h2
+    exact (ih (s • x)).comp x h1
   | lvec op v ih =>
     intro x; simp only [deriv]
     split
